@@ -36,8 +36,8 @@ Qed.
 Definition fld_pieces (sg : bool) (m a : N) : list piece :=
   if sg && (m / 2 <? a) then [PSym 45; PNum (dec_of_N (m - a))] else [PNum (dec_of_N a)].
 Definition line_pieces (legacy sg : bool) (m : N) (i : instr) : list piece :=
-  [PWord (canon_op legacy i); PBlank [32]; PSym (amode_char (i_am i))] ++ fld_pieces sg m (i_a i)
-  ++ [C03Lexer.PComma; PBlank [32]; PSym (amode_char (i_bm i))] ++ fld_pieces sg m (i_b i).
+  [PWord (canon_op legacy i); PBlank [32]; PSym (amode_char (i_am i)); PBlank [32]] ++ fld_pieces sg m (i_a i)
+  ++ [C03Lexer.PComma; PBlank [32]; PSym (amode_char (i_bm i)); PBlank [32]] ++ fld_pieces sg m (i_b i).
 Definition dir_pieces (kw : text) (start : Z) : list piece := [PWord kw; PBlank [32]; PNum (dec_of_N (Z.to_N start))].
 
 (* lines joined by line feeds; the last line feed is the closing white space of the text *)
@@ -152,21 +152,25 @@ Lemma line_good legacy sg m i : good_line (line_pieces legacy sg m i).
 Proof.
   unfold line_pieces.
   destruct (amode_char_facts (i_am i)) as [SA1 SA2]. destruct (amode_char_facts (i_bm i)) as [SB1 SB2].
+  assert (SP : forall am, sym1 (amode_char am) = true \/ (amode_char am = 60 \/ amode_char am = 62) ->
+                          piece_ok (PSym (amode_char am)) 32).
+  { intros am [S|S]; cbn [piece_ok]; [left; exact S|right; split; [exact S|discriminate]]. }
   (* from the back *)
   destruct (fld_ok sg m (i_b i) [] 10 eq_refl I) as [OB [cb [rb [EB [NB1 NB2]]]]]. rewrite app_nil_r in OB, EB.
-  assert (O3 : ok_before ([C03Lexer.PComma; PBlank [32]; PSym (amode_char (i_bm i))] ++ fld_pieces sg m (i_b i)) 10).
-  { cbn [app ok_before]. split; [exact I|]. split.
+  assert (O3 : ok_before ([C03Lexer.PComma; PBlank [32]; PSym (amode_char (i_bm i)); PBlank [32]] ++ fld_pieces sg m (i_b i)) 10).
+  { cbn [app ok_before]. split; [exact I|]. split; [|split; [|split; [|exact OB]]].
     - cbn [piece_ok flat_map ptext app first_of hd]. split; [discriminate|]. split; [repeat constructor|exact SB1].
-    - split; [|exact OB]. cbn [piece_ok]. rewrite EB. cbn [first_of hd].
-      destruct SB2 as [S|S]; [left; exact S|right; split; [exact S|exact NB1]]. }
-  destruct (fld_ok sg m (i_a i) ([C03Lexer.PComma; PBlank [32]; PSym (amode_char (i_bm i))] ++ fld_pieces sg m (i_b i)) 10 eq_refl O3)
+    - cbn [flat_map ptext app first_of hd]. apply SP. exact SB2.
+    - cbn [piece_ok]. rewrite EB. cbn [first_of hd]. split; [discriminate|]. split; [repeat constructor|exact NB2]. }
+  destruct (fld_ok sg m (i_a i) ([C03Lexer.PComma; PBlank [32]; PSym (amode_char (i_bm i)); PBlank [32]] ++ fld_pieces sg m (i_b i)) 10 eq_refl O3)
     as [OA [ca [ra [EA [NA1 NA2]]]]].
   cbn [app] in EA, OA.
   split.
-  - cbn [app ok_before]. split; [|split; [|split; [|exact OA]]].
+  - cbn [app ok_before]. split; [|split; [|split; [|split; [|exact OA]]]].
     + apply canon_op_word. reflexivity.
     + cbn [piece_ok flat_map ptext app first_of hd]. split; [discriminate|]. split; [repeat constructor|exact SA1].
-    + cbn [piece_ok]. rewrite EA. cbn [first_of hd]. destruct SA2 as [S|S]; [left; exact S|right; split; [exact S|exact NA1]].
+    + cbn [flat_map ptext app first_of hd]. apply SP. exact SA2.
+    + cbn [piece_ok]. rewrite EA. cbn [first_of hd]. split; [discriminate|]. split; [repeat constructor|exact NA2].
   - destruct (canon_op_word legacy i 32 eq_refl) as [_ [c [r [E Hc]]]]. cbn [app flat_map ptext]. rewrite E.
     eexists _, _. split; [reflexivity|exact Hc].
 Qed.
